@@ -245,6 +245,7 @@ type vscript struct {
 	toks   []string
 	silent bool // handshakeFail is played as accept-then-silent (60 s read timeout); thorough only
 	slow   bool // the SDK takes vSlowSDK to process an Up report (two connection events can then overlap)
+	long   bool // every "dr" holds the established connection for more than a keep-alive interval before dropping it; thorough only
 	rej    bool // "cl" is played by the READER: it rejects the service's own SetReaderConfig, so the service resets the connection itself
 }
 
@@ -256,8 +257,15 @@ func (s vscript) request() string {
 	if s.rej {
 		verb = "supervisor-rejcfg"
 	}
+	if s.long {
+		verb = "supervisor-long"
+	}
 	return fmt.Sprintf("%s %d %s", verb, s.up, strings.Join(s.toks, " "))
 }
+
+// vLongHold: how long a `long` script keeps an established connection before the reader drops it: longer than a
+// keep-alive interval (a connection that lasted that long and then broke is still a failed attempt)
+const vLongHold = keepAliveInterval + time.Second
 
 func vobs(dials []int, reports []string, done bool, next int) string {
 	ds := make([]string, len(dials))
@@ -442,6 +450,9 @@ loop:
 		}
 		switch kind {
 		case "dr":
+			if s.long {
+				time.Sleep(vLongHold)
+			}
 			if (variant+uint64(i))%2 == 0 {
 				// a polite reader: it announces that it is closing the connection (ConnectionCloseEvent) and then hangs up.
 				// For the supervisor this is a connection that ended, like any other drop.
@@ -480,9 +491,13 @@ loop:
 		if stopped {
 			break loop
 		}
+		closeWait := vDeadline
+		if s.long {
+			closeWait += vLongHold
+		}
 		select {
 		case <-readerDone:
-		case <-time.After(vDeadline):
+		case <-time.After(closeWait):
 			return fmt.Sprintf("timeout:connection-not-closed-event-%d", i)
 		}
 	}
@@ -666,6 +681,8 @@ func TestVerifC15(t *testing.T) {
 		rec(nil)
 		// accept-then-silent: the 60 s read timeout counts as a failed attempt
 		scripts = append(scripts, vscript{up: 1, toks: []string{"hf", "df"}, silent: true}, vscript{up: 1, toks: []string{"df", "hf", "dr"}, silent: true})
+		// a connection that lasted longer than a keep-alive interval and then broke, followed by one failed attempt: Down
+		scripts = append(scripts, vscript{up: 1, toks: []string{"dr", "df"}, long: true}, vscript{up: 0, toks: []string{"df", "dr", "hf", "dr"}, long: true})
 	}
 	// an SDK that takes a while to acknowledge a report: the first connection at a new address is cut short (UpdateAddr
 	// closed the idle client) and the next one follows at once, so two connection-success events overlap
@@ -702,11 +719,12 @@ func TestVerifC15(t *testing.T) {
 		}
 		slow := f[0] == "slow"
 		rej := f[0] == "rej"
-		if slow || rej {
+		long := f[0] == "long"
+		if slow || rej || long {
 			f = f[1:]
 		}
 		up, _ := strconv.Atoi(f[0])
-		scripts = []vscript{{up: up, toks: f[1:], slow: slow, rej: rej}}
+		scripts = []vscript{{up: up, toks: f[1:], slow: slow, rej: rej, long: long}}
 	}
 
 	results := make([]string, len(scripts))
